@@ -600,7 +600,7 @@ TIMEDELTAS = [datetime.timedelta(0), datetime.timedelta(seconds=1), datetime.tim
               datetime.timedelta(days=7), datetime.timedelta(days=8, microseconds=1), datetime.timedelta(days=400),
               datetime.timedelta(seconds=-1), datetime.timedelta(microseconds=999999),
               datetime.timedelta(days=150000, microseconds=1)]
-PATTERNS = [re.compile("a"), re.compile("^x+$"), re.compile("[0-9]{2}")]
+PATTERNS = [re.compile("a"), re.compile("^x+$"), re.compile("[0-9]{2}"), re.compile("abc", re.I), re.compile("^x .+ y$", re.M | re.S)]
 
 
 def DecimalS(): return Picked(decimal.Decimal, DECIMALS)
